@@ -21,7 +21,10 @@ fn main() {
     match args[1].as_str() {
         "keys" => {
             let mut m = serde_json::Map::new();
-            for n in ["k1", "k2", "k3", "k4", "e1", "e2"] {
+            // the fixed test keys, plus any further signer names given on the command line (k:<hex>, e:<hex>)
+            let mut names: Vec<String> = ["k1", "k2", "k3", "k4", "e1", "e2"].iter().map(|s| s.to_string()).collect();
+            names.extend(args.iter().skip(2).cloned());
+            for n in names.iter().map(|s| s.as_str()) {
                 let (s, pk) = keys::indep_pub(n).unwrap();
                 let nid = if s == 'k' { indep::secp_nid(&pk).unwrap() } else { indep::ed_nid(&pk).unwrap() };
                 let xy = if s == 'k' {
